@@ -297,8 +297,11 @@ ResourcesLeft == nlinks < MaxLinks /\ \A x \in Sides : cgen[x] < MaxGen
 \* proviso of the statement: the network lets at least one connection attempt of the new generation complete
 CurrentLinks == {i \in LinkIds : links[i].phase # "none" /\ links[i].gen.L = cgen.L /\ links[i].gen.F = cgen.F}
 NetworkLetOneLive == \E i \in CurrentLinks : ~links[i].wascut
+\* ... so the network is to blame for a standstill only if it cut every connection of the current generation pair;
+\* if there is none although attempts remain, the standstill is the protocol's own
+NetworkCutAll == CurrentLinks # {} /\ \A i \in CurrentLinks : links[i].wascut
 NoDeadlock == (Quiet /\ Dilaters = Sides /\ \A x \in Sides : mgr[x] # "none" /\ versions[x] /\ ~stopReq[x]) =>
-                 (Converged \/ ~ResourcesLeft \/ (\E i \in LinkIds : links[i].phase = "dial") \/ ~NetworkLetOneLive)
+                 (Converged \/ ~ResourcesLeft \/ (\E i \in LinkIds : links[i].phase = "dial") \/ NetworkCutAll)
 \* C17: a stop request always completes, and nothing of that side is left behind
 StopCompletes == \A x \in Sides : stopReq[x] ~> stopped[x]
 NothingLeftAfterStop == \A x \in Sides : stopped[x] =>
